@@ -10,7 +10,8 @@ ID = "C04"
 RULE = (
     "Hypothesis draws a single-phase-flow or mass-and-energy model on the library's 2-d / 3-d test geometries with a "
     "random subset of 0-3 fractures (Cartesian; simplex via gmsh in the thorough tier), in a quarter of the cases with the "
-    "differentiable flux laws DarcysLawAd / FouriersLawAd mixed in, closed boundaries (a harness "
+    "differentiable flux laws DarcysLawAd / FouriersLawAd mixed in, in a third of the energy cases with the advective energy "
+    "flux typed Dirichlet on random boundary faces and arbitrary boundary temperatures (still closed: zero mass flux), closed boundaries (a harness "
     "mixin makes every boundary face Neumann with zero flux; no sources), random constants (compressible and "
     "incompressible fluid), a random time step, an ARBITRARY state (random pressures, temperatures and interface "
     "fluxes - not a solution) and a random previous-time-step state; upwind discretizations are updated to the state. "
@@ -28,7 +29,7 @@ LEVEL_NOTE = ("Uses the model's own accumulation operators as the definition of 
               "library's small test geometries; case counts in the hundreds.")
 DESIGN_REF = "DESIGN.md section 4, C04"
 ASSUMPTIONS = ["closed boundaries and zero sources imposed through the model's bc_type_* hooks"]
-REQUIRED = {"ad-flux": 0.08}
+REQUIRED = {"ad-flux": 0.08, "closed-with-dirichlet-typed-enthalpy-flux": 0.06}
 
 
 def _known_adflux_energy(s):
@@ -37,15 +38,28 @@ def _known_adflux_energy(s):
     return bool(s.get("adflux")) and s["model"] == "energy" and len(s["fracs"]) >= 1
 
 
-KNOWN = {"C04-fouriers-law-ad-drops-interface-flux": _known_adflux_energy}
+def _variant(s):
+    return 1 if (s["model"] == "energy" and (s["pseed"] // 5) % 3 == 0) else 0
 
 
-def _closed_mixin():
+def _known_nonmatching_intersection_tags(s):
+    """Boundary conditions by type on the non-matching model geometry with two (intersecting) fractures: the split
+    faces of the fracture grids at the intersection are tagged as domain boundary faces there."""
+    return _variant(s) == 1 and s.get("geom") == "nonmatching" and len(s["fracs"]) == 2
+
+
+KNOWN = {"C04-fouriers-law-ad-drops-interface-flux": _known_adflux_energy,
+         "C04-nonmatching-geometry-tags-intersection-faces-as-domain-boundary": _known_nonmatching_intersection_tags}
+
+
+def _closed_mixin(variant=0, seed=0):
+    """Closed boundaries. variant 0: every flux Neumann (zero values by default). variant 1: the mass flux, the Darcy flux
+    and the conductive flux are closed (Neumann, zero), while the *type* of the advective energy flux is Dirichlet on a
+    random subset of the boundary faces and the boundary temperature / pressure values are arbitrary: with zero mass
+    flux no energy can be advected through the boundary whatever its type says, so the domain is still closed."""
     import porepy as pp
 
     class ClosedBoundaries:
-        """All exterior boundary faces are Neumann (zero values by default)."""
-
         def bc_type_darcy_flux(self, sd):
             return pp.BoundaryCondition(sd)
 
@@ -56,7 +70,26 @@ def _closed_mixin():
             return pp.BoundaryCondition(sd)
 
         def bc_type_enthalpy_flux(self, sd):
-            return pp.BoundaryCondition(sd)
+            if variant == 0:
+                return pp.BoundaryCondition(sd)
+            bf = self.domain_boundary_sides(sd).all_bf
+            rng = np.random.default_rng([seed, sd.dim, sd.num_faces])
+            pick = bf[rng.random(bf.size) < 0.6]
+            return pp.BoundaryCondition(sd, pick, "dir")
+
+        def bc_values_temperature(self, bg):
+            if variant == 0:
+                return super().bc_values_temperature(bg)
+            rng = np.random.default_rng([seed, 11, bg.num_cells])
+            ref = self.reference_variable_values.temperature
+            return ref + (1.0 + abs(ref)) * rng.uniform(0.05, 0.5, bg.num_cells)
+
+        def bc_values_pressure(self, bg):
+            if variant == 0:
+                return super().bc_values_pressure(bg)
+            rng = np.random.default_rng([seed, 13, bg.num_cells])
+            ref = self.reference_variable_values.pressure
+            return ref + (1.0 + abs(ref)) * rng.uniform(0.05, 0.5, bg.num_cells)
 
     return ClosedBoundaries
 
@@ -74,7 +107,8 @@ def warmup():
 
 
 def check(spec):
-    m = build_model(spec, extra_mixins=(_closed_mixin(),))
+    variant = _variant(spec)
+    m = build_model(spec, extra_mixins=(_closed_mixin(variant, spec["pseed"]),))
     es = m.equation_system
     x = random_state(m, spec, 0)
     xt = random_state(m, spec, 1)
@@ -84,6 +118,8 @@ def check(spec):
     sds = m.mdg.subdomains()
     dt = float(m.time_manager.dt)
     labels = model_labels(spec, m)
+    if variant:
+        labels.append("closed-with-dirichlet-typed-enthalpy-flux")
     balances = [("mass_balance_equation", m.fluid_mass(sds), "mass")]
     if spec["model"] == "energy":
         # total_internal_energy is an energy density: the equation integrates it over the cells
